@@ -29,8 +29,13 @@ def _calls(s, name):
     return [c for c in ir.calls_in(s) if c.get("fn") == name]
 
 
+_FID_LOCALS = set()     # ids of locals that hold a copy of file->fid (set per function by rule_file_create)
+
+
 def _is_fid(n):
     n = ir.strip(n)
+    if isinstance(n, dict) and n.get("k") == "var" and n.get("id") in _FID_LOCALS:
+        return True
     return isinstance(n, dict) and n.get("k") == "mem" and n.get("f") == "fid"
 
 
@@ -106,6 +111,14 @@ def rule_file_create(prog, res, clauses=("TRUNC", "LOCK-FIRST", "FD-ONCE")):
     if paths.natural_loops(f):
         raise AnalysisBroken("file_create has a loop: the path enumeration of R-CREATE does not apply")
     errno_vars = _errno_locals(f)
+    # locals that are single-assignment copies of the descriptor field ( const int fid = file->fid; )
+    _FID_LOCALS.clear()
+    from . import congr
+    defs = congr.single_defs(f)
+    for vid, d in defs.items():
+        d0 = ir.strip(d)
+        if isinstance(d0, dict) and d0.get("k") == "mem" and d0.get("f") == "fid":
+            _FID_LOCALS.add(vid)
     flock_vars = set()
     for b, i, s in f.all_stmts():
         if s.get("k") == "decl" and "init" in s and _calls(s["init"], "flock"):
@@ -165,6 +178,8 @@ def rule_file_create(prog, res, clauses=("TRUNC", "LOCK-FIRST", "FD-ONCE")):
             for lv, op, rhs, w in ir.writes_of(s):
                 if _is_fid(lv) and op == "=" and not _calls(s, "open"):
                     r0 = ir.strip(rhs) if isinstance(rhs, dict) else None
+                    if _is_fid(r0):
+                        continue    # a copy of the descriptor: the sign known for one holds for the other
                     if isinstance(r0, dict) and r0.get("k") == "un" and r0.get("op") == "-":
                         st["fid_sign"] = "neg"
                     elif isinstance(r0, dict) and r0.get("k") == "int":
@@ -204,6 +219,14 @@ def rule_file_create(prog, res, clauses=("TRUNC", "LOCK-FIRST", "FD-ONCE")):
                 isneg, fl = _neg_test(c, is_sys)
                 if isneg and su["label"] == fl:
                     st2["failed_call"] = True
+                    if _calls(c, "ftruncate"):
+                        st2["trunc_failed"] = True
+                # errno compared with EINVAL (22): for ftruncate(fd, 0) that is "not a regular file" - nothing to empty
+                c0 = ir.strip(c)
+                if isinstance(c0, dict) and c0.get("k") == "bin" and c0.get("op") in ("==", "!=") and \
+                        ((is_errno(c0["l"]) and ir.is_const(c0["r"], 22)) or (is_errno(c0["r"]) and ir.is_const(c0["l"], 22))):
+                    if (su["label"] == "true") == (c0["op"] == "=="):
+                        st2["einval"] = True
                 isneg, fl = _neg_test(c, is_flock)
                 if isneg:
                     if su["label"] == fl:
@@ -211,7 +234,8 @@ def rule_file_create(prog, res, clauses=("TRUNC", "LOCK-FIRST", "FD-ONCE")):
                     else:
                         st2["locked"] = True
                 # a test of errno after a failed call: the zero side is not a path (OS contract)
-                if any(is_errno(y) for y in ir.walk(c)) and st.get("failed_call"):
+                if any(is_errno(y) for y in ir.walk(c)) and st.get("failed_call") and not st2.get("einval") and \
+                        not (isinstance(c0, dict) and c0.get("k") == "bin" and c0.get("op") in ("==", "!=") and not ir.is_const(c0.get("r"), 0) and not ir.is_const(c0.get("l"), 0)):
                     if su["label"] != _nonzero_label(c):
                         continue
             walk(su["to"], st2, path + [su["to"]])
@@ -224,7 +248,7 @@ def rule_file_create(prog, res, clauses=("TRUNC", "LOCK-FIRST", "FD-ONCE")):
     if not succ_paths:
         raise AnalysisBroken("file_create never reports success")
     if "TRUNC" in clauses:
-        bad = [(s, p) for s, p in succ_paths if not s.get("trunc")]
+        bad = [(s, p) for s, p in succ_paths if not s.get("trunc") or (s.get("trunc_failed") and not s.get("einval"))]
         inst = "TRUNC file_create: a successful create has emptied the file"
         if bad:
             res.fail(RULE, inst, "%s|file_create|no-truncate" % RULE, f.loc(),
